@@ -1,0 +1,7 @@
+//go:build verif
+
+package server
+
+// VerifHandleRequest exposes the per-connection operator loop to the
+// verification harness (built only with `-tags verif`).
+func (t *Teamserver) VerifHandleRequest(id string) { t.handleRequest(id) }
